@@ -77,6 +77,20 @@ def _remove_leading_empty_lines(s: str) -> str:
     return "\n".join(lines)
 
 
+def _is_plain_value(value: Any) -> bool:
+    """Checks if a value only consists of types that can be stored in the flow state."""
+    if value is None or isinstance(value, (str, int, float, bool)):
+        return True
+    if isinstance(value, (list, tuple, set)):
+        return all(_is_plain_value(v) for v in value)
+    if isinstance(value, dict):
+        return all(
+            (k is None or isinstance(k, (str, int, float, bool))) and _is_plain_value(v)
+            for k, v in value.items()
+        )
+    return False
+
+
 class LLMGenerationActionsV2dotx(LLMGenerationActions):
     """Adapted version of LLMGenerationActions for Colang 2.x.
 
@@ -786,9 +800,15 @@ class LLMGenerationActionsV2dotx(LLMGenerationActions):
         log.info("Generated value for $%s: %s", var_name, value)
 
         try:
-            return literal_eval(value)
+            generated_value = literal_eval(value)
         except Exception:
             raise Exception(f"Invalid LLM response: `{value}`")
+
+        # The value becomes part of the flow state, which must remain serializable
+        if not _is_plain_value(generated_value):
+            raise Exception(f"Invalid LLM response: `{value}`")
+
+        return generated_value
 
     @action(name="GenerateFlowAction", is_system_action=True, execute_async=True)
     async def generate_flow(
